@@ -17,6 +17,8 @@ use vmodel::{canon, derive_seed, hash_json, hex, Ty, Val};
 
 #[derive(Debug, Clone, Serialize, Deserialize)]
 pub enum FaultCase {
+    /// an input saved by a libFuzzer target (first two bytes select the type from the target's list)
+    FuzzArtifact { target: String, bytes: Vec<u8> },
     Raw { ty: Ty, bytes: Vec<u8> },
     Tampered { ty: Ty, val: Val, ops: Vec<TOp>, donor: Option<Val> },
     Ops(OpsCase),
@@ -51,6 +53,14 @@ pub fn tampered_strategy() -> BoxedStrategy<FaultCase> {
 /// the bytes a case feeds to the decoder, and a label of what was done to them
 pub fn materialize(c: &FaultCase) -> Option<(Ty, Vec<u8>, Vec<u8>, String)> {
     match c {
+        FaultCase::FuzzArtifact { target, bytes } => {
+            if target == "read_compressed" {
+                return None;
+            }
+            let types = vcat::fuzz_types(target);
+            let (ty, rest) = vcat::fuzz_select(&types, bytes)?;
+            Some((ty.clone(), rest.to_vec(), vec![], format!("libFuzzer artifact of {target}")))
+        }
         FaultCase::Raw { ty, bytes } => Some((ty.clone(), bytes.clone(), vec![], "raw bytes".into())),
         FaultCase::Tampered { ty, val, ops, donor } => {
             let frag = ref_encode(ty, val).ok()?;
@@ -135,42 +145,7 @@ pub fn check_c05(c: &FaultCase, acc: &mut Acc, record: bool) -> Verdict {
     }
 }
 
-/// the fixed type list of the exhaustive sub-space: every leaf, every constructor over small children, and
-/// hand-written derived declarations covering every evolution step kind
-pub fn exhaustive_types() -> Vec<Ty> {
-    use Ty::*;
-    let a = |t: Ty| std::sync::Arc::new(t);
-    let mut v = leaf_tys();
-    v.push(Dedup);
-    for e in [U8, U16, Str, Unit, Bool] {
-        v.push(Option(a(e.clone())));
-        v.push(Vec(a(e.clone())));
-        v.push(LinkedList(a(e.clone())));
-        v.push(HashSet(a(e.clone())));
-        v.push(BTreeSet(a(e.clone())));
-        v.push(Array(a(e.clone()), 0));
-        v.push(Array(a(e.clone()), 1));
-        v.push(Array(a(e.clone()), 2));
-        v.push(Box(a(e.clone())));
-        v.push(Tuple(vec![e.clone()]));
-        v.push(Tuple(vec![e.clone(), U8]));
-        v.push(HashMap(a(e.clone()), a(U8)));
-        v.push(BTreeMap(a(e.clone()), a(Str)));
-        v.push(Result(a(e.clone()), a(U8)));
-    }
-    v.push(Array(a(U8), 17));
-    v.push(Array(a(U16), 3));
-    v.push(Vec(a(Vec(a(U8)))));
-    v.push(Vec(a(Option(a(Unit)))));
-    v.push(Tuple(vec![U8, U8, U8, U8, U8, U8, U8, U8]));
-    v.push(Rc(a(Str)));
-    v.push(Arc(a(Vec(a(I8)))));
-    for d in vmodel::declgen::fixed_decls() {
-        v.push(Adt(d.clone()));
-        v.push(Vec(a(Adt(d.clone()))));
-    }
-    v
-}
+pub use vmodel::typelists::exhaustive_types;
 
 fn nth_bytes(mut i: u64, max_len: u32) -> Vec<u8> {
     // enumeration order: length 0, then all of length 1, then length 2, ...
@@ -303,7 +278,33 @@ fn known_findings_c05(r: &mut PropResult, cx: &Cx) {
 
 pub fn replay_c05(case: &Value) -> Verdict {
     let c: FaultCase = serde_json::from_value(case.clone()).expect("replay case");
-    check_c05(&c, &mut Acc::new(), false)
+    match check_c05(&c, &mut Acc::new(), false) {
+        Verdict::Pass | Verdict::Skip => replay_under_sanitizer(&c),
+        f => f,
+    }
+}
+
+/// a libFuzzer artifact that passes the in-process oracle may still be a sanitizer-only finding: run the ASan binary
+pub fn replay_under_sanitizer(c: &FaultCase) -> Verdict {
+    if let FaultCase::FuzzArtifact { target, bytes } = c {
+        let exe = std::env::current_exe().expect("exe");
+        let bin = exe.parent().unwrap().parent().unwrap().parent().unwrap().join("fuzz/target/x86_64-unknown-linux-gnu/release").join(target);
+        if bin.exists() {
+            let tmp = crate::out_root().join("work").join(format!("artifact-{}", std::process::id()));
+            std::fs::create_dir_all(tmp.parent().unwrap()).ok();
+            std::fs::write(&tmp, bytes).ok();
+            let st = std::process::Command::new(&bin).arg(&tmp).env("ASAN_OPTIONS", "detect_odr_violation=0").output();
+            std::fs::remove_file(&tmp).ok();
+            if let Ok(o) = st {
+                if !o.status.success() {
+                    let err = String::from_utf8_lossy(&o.stderr);
+                    let line = err.lines().find(|l| l.contains("ERROR") || l.contains("panicked") || l.contains("C06")).unwrap_or("sanitizer / fuzz target failure").to_string();
+                    return Verdict::Fail(format!("the libFuzzer target {target} fails on this input: {line}"));
+                }
+            }
+        }
+    }
+    Verdict::Pass
 }
 
 pub fn regen_c05(cx: &Cx, shard: usize, stream: u64, index: u64) -> Option<Value> {
@@ -402,7 +403,10 @@ pub fn run_c06(cx: &Cx) -> PropResult {
 
 pub fn replay_c06(case: &Value) -> Verdict {
     let c: FaultCase = serde_json::from_value(case.clone()).expect("replay case");
-    check_c06(&c, &mut Acc::new(), false)
+    match check_c06(&c, &mut Acc::new(), false) {
+        Verdict::Pass | Verdict::Skip => replay_under_sanitizer(&c),
+        f => f,
+    }
 }
 
 pub fn regen_c06(cx: &Cx, shard: usize, stream: u64, index: u64) -> Option<Value> {
